@@ -80,6 +80,10 @@ func TestC03Linearizable(t *testing.T) {
 		run := w.runConcurrent(cc.Progs, cc.YieldSeed, cc.ViaRPC, 60*time.Second, cc.Pause)
 		detail := cc.describe()
 		detail["history"] = describeHistory(run.Ops)
+		if run.Slow {
+			St.Class("call_too_slow_for_the_harness_not_judged")
+			t.Skip("harness too slow")
+		}
 		if run.Hung && !run.HungInFinal {
 			// a hang of concurrent requests is C06's subject; here the history cannot be judged
 			St.Class("run_hung_not_judged")
@@ -198,6 +202,10 @@ func TestC03Windows(t *testing.T) {
 		detail := cc.describe()
 		detail["full_disk"] = fulldisk
 		detail["history"] = describeHistory(all)
+		if run.Slow {
+			St.Class("call_too_slow_for_the_harness_not_judged")
+			t.Skip("harness too slow")
+		}
 		if run.Hung && !run.HungInFinal {
 			St.Class("run_hung_not_judged")
 			t.Skip("the run did not terminate (reported by the C06 check)")
@@ -223,7 +231,9 @@ func TestC03Windows(t *testing.T) {
 		}
 		// the disk must still be a well-formed file system
 		var ferr error
-		if o := Guard(10*time.Second, func() { w.S.Quiesce(); ferr = Fsck(w.S.N.VerifFsState(), FsckOpts{Allocators: true}).Err() }); o.Bad() || ferr != nil {
+		if o := Guard(10*time.Second, func() { w.S.Quiesce(); ferr = Fsck(w.S.N.VerifFsState(), FsckOpts{Allocators: true}).Err() }); o.Slow {
+			St.Class("call_too_slow_for_the_harness_not_judged")
+		} else if o.Bad() || ferr != nil {
 			failf(t, "C03", detail, "after the concurrent history the disk is damaged: %v %v", o, ferr)
 		}
 		if St.WantSample(run.Paused && nconf > 0) {
@@ -376,6 +386,10 @@ func TestC03Enum(t *testing.T) {
 			St.Violation("C03", msg, detail)
 			t.Fatalf("C03: %s\n%v", msg, detail)
 		}
+		if r.Slow {
+			St.Class("call_too_slow_for_the_harness_not_judged")
+			continue
+		}
 		if r.HungInFinal {
 			fail("all clients returned, but the sequential observation of the final state does not terminate: the concurrent requests left a state no sequential order produces")
 		}
@@ -387,7 +401,9 @@ func TestC03Enum(t *testing.T) {
 			fail("the history (client 0 held at its lock/commit point #%d while client 1 runs) is not linearizable", ec.Hook)
 		}
 		var ferr error
-		if o := Guard(10*time.Second, func() { w.S.Quiesce(); ferr = Fsck(w.S.N.VerifFsState(), FsckOpts{Allocators: true}).Err() }); o.Bad() || ferr != nil {
+		if o := Guard(10*time.Second, func() { w.S.Quiesce(); ferr = Fsck(w.S.N.VerifFsState(), FsckOpts{Allocators: true}).Err() }); o.Slow {
+			St.Class("call_too_slow_for_the_harness_not_judged")
+		} else if o.Bad() || ferr != nil {
 			fail("after the concurrent history the disk is damaged: %v %v", o, ferr)
 		}
 		w.S.Stop()
